@@ -69,6 +69,7 @@ CHEAP = [_w(t) for t in [
     'CREATE_OR_REPLACE VIEW v AS SELECT a FROM t', 'CREATE_OR_REPLACE TABLE t2 AS SELECT 1', 'CREATE TABLE t3 ( a int )', 'DROP TABLE t3', 'EXPLAIN CREATE_OR_REPLACE VIEW v AS SELECT 1',
     'SELECT a FROM t WHERE b = 1 FOR UPDATE', 'OPEN c FOR SELECT a FROM t', 'OPEN c', 'FETCH c INTO v', 'CLOSE c', 'DECLARE c CURSOR FOR SELECT a FROM t',
     'DECLARE CONTINUE HANDLER FOR NOT FOUND SET v = 1', 'DECLARE w int',
+    'DROP TABLE IF EXISTS t3', 'CREATE TABLE IF NOT EXISTS t3 ( a int )', 'DROP VIEW IF EXISTS v',
     'INSERT INTO t VALUES ( 1 ) ON CONFLICT ( a ) DO UPDATE SET b = 2', 'INSERT INTO t VALUES ( 1 , 2 ) ON CONFLICT DO NOTHING', 'DO SLEEP ( 1 )',
 ]]
 
